@@ -205,3 +205,18 @@ package badger
 //@ ensures [only-nonces-and-the-version-key] forall k string :: k != "vip:version" && !(exists x string :: k == nonceKey(x)) ==> kvunchanged(k)
 //@ ensures [stamped] err == nil ==> old(dbVersionIs(1)) && dbVersionIs(2)
 //@ loop 0 invariant [only-nonces] forall k string :: k != "vip:version" && !(exists x string :: k == nonceKey(x)) ==> kvunchanged(k)
+
+// ---- statistics (C01, C12): the reported total credit is the ledger total ------------------------
+// loopItem walks one key space, decoding every entry into a cleared destination before its callback runs. It is
+// inlined into Stats; its invariant is phrased for that use: whatever the callback adds to the statistics' total
+// credit is the credit of the entries walked so far (nothing, for key spaces that hold no balances).
+//@ func loopItem
+//@ inline
+//@ loop 0 invariant [walked] bigval(stats.TotalCredit) - itsum(it) == entry(bigval(stats.TotalCredit))
+
+//@ func (*badgerStore).Stats
+//@ property C01 C12 C13
+//@ requires dbInv(s)
+//@ ensures [db-inv] {C12 C13} dbInv(s)
+//@ implements store.Store.Stats
+//@ ensures [read-only] {C13} txncount() <= 1
